@@ -4,7 +4,7 @@ from __future__ import annotations
 import z3
 
 from pyvc.api import A, FnSpec, LoopSpec, SRC
-from pyvc.containers import INT, STR, ClassDecl, SMap, SObj, SRef, SSeq, TOpt, TRef, TSeq
+from pyvc.containers import INT, STR, ClassDecl, SMap, SObj, SRef, SSeq, SSet, TOpt, TRef, TSeq
 from pyvc.engine import Env, Frame, ModuleInfo, SClass
 from pyvc.values import SBool, SInt, SMaybe, SStr, STuple, SVal, Unsupported, fresh_name
 
@@ -325,7 +325,7 @@ class OpenRecord(FnSpec):
 
 def add_open_bindings(reg):
     reg.ctors["H5File"] = h5file_ctor
-    reg.method_bindings[("H5File", "close")] = h5file_close
+    reg.method_bindings[("H5File", "close")] = h5file_close_logged
     reg.method_bindings[("IH5Record", "__new__")] = new_record
     reg.method_bindings[("IH5Record", "super.__init__")] = lambda cx, obj, *a, **k: None
     reg.add(LoadUserBlock())
@@ -700,14 +700,82 @@ class DiscardPatch(LifeCycle):
         ]
 
 
+class CloseRecord(LifeCycle):
+    """close(): commit what is open (unless told not to), then close every container"""
+
+    qual = "IH5Record.close"
+    props = ("C02", "C03", "C11")
+
+    def init(self):
+        LifeCycle.init(self)
+
+        def inv(cx, env, it):
+            a = cx.ghost["cl"]
+            L = a.old_files
+            j = z3.Int(fresh_name("cj"))
+            return [
+                ("files-closed-so-far", z3.ForAll([j], z3.Implies(z3.And(0 <= j, j < it.i), a.closed.has(L.at_term(j))))),
+                ("list-not-edited-while-closing", files_of(a.self).ext_eq(L)),
+            ]
+
+        self.loops[0] = LoopSpec(inv, modifies=["f"], havoc_inplace=["self.closed_log"])
+
+    def setup(self, cx):
+        a = LifeCycle.setup(self, cx)
+        rec = a.self
+        a.closed = SSet(TRef("H5File"))
+        rec.fields["closed_log"] = a.closed
+        a.commit_flag = SBool(z3.Bool("commit_argument"))
+        a["commit"] = a.commit_flag
+        a.needs_commit = z3.And(has_writable_t(cx, rec), a.commit_flag.t)
+
+        def commit_stub(cx2):
+            cx2.effect("commit_patch")
+            cx2.ghost["committed"] = True
+            # CommitPatch's contract: same files, the newest re-opened read-only; here only that the list object stays
+            return None
+
+        rec.fields["commit_patch"] = commit_stub
+        cx.ghost["cl"] = a
+        cx.ghost["close_log"] = a
+        return a
+
+    def raises(self, cx, a):
+        return {}
+
+    def ensures(self, cx, a, res):
+        rec = a.self
+        was_closed = a.entry_fields["_closed"].t
+        j = z3.Int(fresh_name("ej"))
+        commits = [e for e in cx.fx if e[0] == "commit_patch"]
+        L = a.old_files
+        now = rec.fields["__files__"]
+        emptied = isinstance(now, list) and not now
+        return [
+            ("closing-twice-does-nothing", z3.Implies(was_closed, z3.BoolVal(not cx.fx and not emptied)), "closing a closed record has no effect"),
+            ("open-patch-committed-iff-asked", z3.Implies(z3.Not(was_closed), z3.BoolVal(len(commits) == 1) == a.needs_commit), "an open patch is committed by close() exactly when commit is true (so close(commit=False) never produces a committed container, and a plain close never leaves an uncommitted one behind)"),
+            ("every-container-closed", z3.Implies(z3.Not(was_closed), z3.ForAll([j], z3.Implies(z3.And(0 <= j, j < L.n), a.closed.has(L.at_term(j))))), "every container file of the record is closed"),
+            ("marked-closed-and-emptied", z3.Implies(z3.Not(was_closed), z3.And(z3.BoolVal(emptied), rec.fields["_closed"].t if isinstance(rec.fields["_closed"], SBool) else z3.BoolVal(rec.fields["_closed"] is True))), "afterwards the object holds no file and is marked closed"),
+        ]
+
+
+def h5file_close_logged(cx, f):
+    a = cx.ghost.get("close_log")
+    if a is None:
+        return h5file_close(cx, f)
+    # commit (if it was due) must have happened before the first container is closed: a closed file cannot be committed
+    cx.oblige("commit-precedes-closing", "call-pre", z3.Implies(a.needs_commit, z3.BoolVal(bool(cx.ghost.get("committed")))), clause="the open patch is committed before the files are closed")
+    a.closed.py_call_method(cx, "add", [f], {})
+
+
 def add_lifecycle(reg):
     reg.ctors["H5File"] = h5file_ctor2
-    reg.method_bindings[("H5File", "close")] = h5file_close
+    reg.method_bindings[("H5File", "close")] = h5file_close_logged
     reg.method_bindings[("PathVal", "unlink")] = None
     reg.add(SaveUserBlock())
     reg.add(CreateUserBlock())
     reg.add(NextPatchPath())
-    specs = [NewContainer(), CommitPatch(), CreatePatch(), DeleteLatest(), DiscardPatch()]
+    specs = [NewContainer(), CommitPatch(), CreatePatch(), DeleteLatest(), DiscardPatch(), CloseRecord()]
     for s in specs:
         reg.add(s)
     return specs
